@@ -136,6 +136,9 @@ fn elem(e: usize, bits: usize) -> u128 {
 
 /// Bit positions whose flip gives the neighbours of an element that are probed as well.
 fn flips(bits: usize) -> Vec<usize> {
+    if bits == 0 {
+        return Vec::new();
+    }
     let mut v = vec![0usize, bits - 1];
     if bits > 64 {
         v.push(bits - 65);
@@ -173,7 +176,7 @@ pub fn execute(plan: &EnvPlan) -> RunOutcome {
     let mut out = RunOutcome::default();
     let mut stats = Stats::new();
     out.plan_digest = digest_bytes(&serde_json::to_vec(plan).expect("plan serialises"));
-    let w1 = plan.set_bits.clamp(1, 120);
+    let w1 = plan.set_bits.min(120);
     let w2 = plan.set_bits2.min(120);
     if w1 > 64 || w2 > 64 {
         bump(&mut stats, "fault.custom-element-type");
@@ -183,7 +186,11 @@ pub fn execute(plan: &EnvPlan) -> RunOutcome {
     }
     bump(&mut stats, &format!("probe.set_bits.{w1}"));
     let width_for = |step_no: usize| if w2 != 0 && step_no % 2 == 1 { w2 } else { w1 };
-    let universes: BTreeMap<usize, Vec<u128>> = [w1, w2].iter().filter(|w| **w != 0).map(|w| (*w, universe_of(plan, *w))).collect();
+    let mut widths = vec![w1];
+    if w2 != 0 {
+        widths.push(w2);
+    }
+    let universes: BTreeMap<usize, Vec<u128>> = widths.iter().map(|w| (*w, universe_of(plan, *w))).collect();
     let mentions = plan.steps.iter().any(|s| matches!(s.op, Op::SetFromElement(_) | Op::SetInsert(..) | Op::SetContains(..)));
 
     let env = Rc::new(BDDEnv::<usize>::new());
